@@ -705,6 +705,7 @@ func runC20(c *Check, a *Analysis) {
 func runC12(c *Check, a *Analysis) {
 	p := c.P
 	sc := siteCounter{}
+	ruleHeaderFresh(c, a, "R-HEADER-FRESH")
 	c.Rule("R-RESOLVE-AGREE", "DialWithOptions and ListenWithOptions resolve socket / body codec / header encoder identically: registry looked up by the Options name field first, the constructor field used only when the registry has no entry; results feed NewClientCodec / NewServerCodec in positions 0 and 1", 8)
 	type res struct {
 		registry, nameField, ctorField   string
